@@ -113,6 +113,48 @@ def run_encode(tier):
     return n, viol, len(kinds)
 
 
+_BASE = [None]     # the probes' encodings, taken before anything else was ever encoded in this process
+
+
+def history_probes():
+    return [None, True, 0, 160, -1, 10 ** 30, 0.0, -0.0, 1.5, 1j, "s", "", b"b", (), (1, None), ((1, "a"), b"x"),
+            frozenset([1]), frozenset(), slice(1, 2, 3), Ellipsis, NotImplemented]
+
+
+def run_history(tier):
+    """the serializer has no memory: after ANY earlier call - successful or refused (a refused encode may have got half
+    way through a container) - every probe encodes to the same bytes as in a fresh interpreter state and decodes back"""
+    viol = []
+    n = 0
+    probes = history_probes()
+    base = _BASE[0] or [brine.dump(p) for p in probes]
+    for label, v in encode_cases(tier):
+        try:
+            brine.dump(v)
+            how = "successful"
+        except Exception:     # noqa
+            how = "refused"
+        try:
+            brine.dumpable(v)
+        except Exception:     # noqa
+            pass
+        for p, b in zip(probes, base):
+            n += 1
+            try:
+                d = brine.dump(p)
+                back = brine.load(d)
+            except Exception as ex:   # noqa
+                viol.append(("history-dependent-encoding:%s-earlier-call:raised-%s" % (how, type(ex).__name__),
+                             "after %s dump of %s: dump/load of %s raised %r" % (how, label, V.short(p), ex)))
+                continue
+            if d != b or not V.same(back, p):
+                viol.append(("history-dependent-encoding:%s-earlier-call:%s" % (how, type(p).__name__),
+                             "after %s dump of %s: %s encodes to %r (fresh: %r), decodes to %s" % (how, label, V.short(p), d[:40], b[:40], V.short(back))))
+        if len(viol) > 10:
+            break
+    return n, viol
+
+
 # ------------------------------------------------------------------ decode side
 def check_decode(data):
     _audit["events"] = []
@@ -245,6 +287,7 @@ def main(tier, replay_obj=None):
                         "single-byte substitution of %d seed encodings; distinct = distinct (type, plain?) classes on the encode side + "
                         "distinct decode outcome classes" % (2 if tier == "quick" else 3, 2 if tier == "quick" else 3,
                                                               4 if tier == "quick" else 5, len(ALPHABET), len(seeds())))
+    _BASE[0] = [brine.dump(p) for p in history_probes()]
     n, viol, kinds = run_encode(tier)
     res.evaluations += n
     res.distinct_count_extra += kinds
@@ -253,6 +296,11 @@ def main(tier, replay_obj=None):
         label = text.split(":")[0]
         res.violation(sig, text, {"kind": "encode", "label": label})
     res.add_sample({"encode": "10**255 (256-digit integer)", "dumpable": True})
+    n, viol = run_history(tier)
+    res.evaluations += n
+    res.parts["encode-history"] = {"earlier_call_x_probe": n, "probes": len(history_probes())}
+    for sig, text in viol:
+        res.violation(sig, text, {"kind": "history", "label": text.split(":")[0]})
     specs = decode_specs(tier)
     outs = runner.pmap(decode_shard, [(s,) for s in specs], chunksize=1)
     total = 0
